@@ -37,6 +37,10 @@ class C10(Check):
                 # the kernel's mask of possible CPUs as /sys/devices/system/cpu/possible shows it (None: this machine's)
                 "mask": rng.choice([None, None, "0", "0-7", "0-3,8-11", "0,2-3", "0,2,4,6", "0-1,4-5,8", "0-2,4"]),
                 "key": members(1, 3), "value": members(1, 4), "ops": []}
+        if rng.random() < 0.06:
+            # a hash map with as many variables as its one-byte key allows, and more (more may be refused, never mis-sized)
+            n = rng.choice([255, 255, 256, 257, 300])
+            case["hashvars"] = [[rng.choice(["B", "I", "q"]), None] for _ in range(n)]
         if len(case["value"]) >= 2 and rng.random() < 0.3:
             case["inherit"] = rng.randint(1, len(case["value"]) - 1)
         for hv in case["hashvars"]:
@@ -192,6 +196,9 @@ class C10(Check):
             if c[2] < c[4] or c[3] < c[5]:
                 return f"call {c}: buffer smaller than the kernel's access"
         bad = [r for r in o["results"] if r[1] not in ("ok", "KeyError")]
+        if len(case["hashvars"]) > 255:
+            # more variables than a one-byte key can number: a refusal (struct.error) is fine, undersized buffers are not
+            bad = [r for r in bad if "format requires" not in str(r[1]) and "struct.error" not in str(r[1]) and not str(r[1]).startswith("error")]
         if bad:
             return f"API call failed: {bad[0]}; ops {case['ops']}"
         return True
@@ -200,7 +207,7 @@ class C10(Check):
         return not isinstance(o, Err) and len(o["calls"]) > 0
 
     def rule(self):
-        return ("programs declaring 0-4 hash-map variables (all formats incl. x, with defaults), 0-3 per-CPU array variables on a machine with 1/2/4/16 online CPUs "
+        return ("programs declaring 0-4 hash-map variables (all formats incl. x, with defaults; 6%: 255, 256, 257 or 300 of them), 0-3 per-CPU array variables on a machine with 1/2/4/16 online CPUs "
                 "whose mask of possible CPUs is this machine's or one of 0, 0-7, 0-3,8-11, 0,2-3, 0,2,4,6, 0-1,4-5,8, 0-2,4 (served for /sys/devices/system/cpu/possible), a Dict with 1-3 key and 1-4 value members of all sizes (30%: the value structure extends a base structure that an earlier Dict uses by itself); load() and 3-12 API operations: Dict set / get / in / pop / pop "
                 "with default / del / iteration, hash variable get / set, per-CPU read and indexing")
 
